@@ -168,9 +168,10 @@ func TestC19(t *testing.T) {
 		}
 		if rep := engine.Report(c, w, owned); rep != nil {
 			small := engine.Shrink(c, owned, 400)
-			w2 := engine.Exec(small)
-			if rep2 := engine.Report(small, w2, owned); rep2 != nil {
-				c, rep = small, rep2
+			if w2, _ := engine.ExecQuiet(small); w2 != nil {
+				if rep2 := engine.Report(small, w2, owned); rep2 != nil {
+					c, rep = small, rep2
+				}
 			}
 			p := engine.SaveReplay("C19", c)
 			rt.Fatalf("property C19 violated (replay %s)\ncase: %s\n%s", p, c, strings.Join(rep, "\n"))
